@@ -11,13 +11,11 @@ descent over the partial tree `readDoc bytes` (`J5V.Json.Tree`), which presents 
 in the order the decoder consumes it, so every function is **structurally recursive** on the tree:
 termination and the step bound of C06 hold by construction.
 
-Every partial Go operation on the way is an explicit `.panic`:
-* `foundKeys[0]` in `decodeOneofInner` when only `"!type"` was given,
-* `protoreflect.List.Append` / `Map.Set` of the invalid `protoreflect.Value{}` that
-  `scalarReflectFromGo` returns (with a nil error) for `null` in bool / string / key kinds and for
-  unparsable strings in integer kinds,
-* `newFieldFactory`'s `panic("invalid schema for leaf field")` for an array / map whose item is
-  itself an array or map.
+Partial Go operations on the way are explicit `.panic` arms. After the repairs da8a625
+(`foundKeys[0]`), 1330ca4 (`List.Append` / `Map.Set` of an invalid `protoreflect.Value`) and
+b7a2948 (integer string arms) the only one left is `newFieldFactory`'s
+`panic("invalid schema for leaf field")` for an array / map whose item is itself an array or map
+(excluded by `Env.WF`: proto has no such fields).
 
 The decoder state of one property set is the message being filled (`Fields`) and `seen`, the JSON
 names whose `property.hasValue` flag is set (`CreateField` fails with "already set" on the second).
@@ -53,21 +51,53 @@ def createField (p : PropDef) (st : PS) : Outcome PS :=
 /-- `expectDelim(closer)` after a member / element loop -/
 def closeOk (t : Term) : Bool := t == .closed
 
-/-- the oneof post-checks of `decodeOneofInner` (after the member loop) -/
-def oneofPost (ops : List PropDef) (found : List Bytes) (ct : Option Bytes) : Outcome Unit :=
+/-- `oneof.NewValue(name)` → `buildOrCreate`: the `Mutable` walk of `buildValue(create = true)`.
+Messages on the way are created; a message-valued final field (object / oneof / any) is created
+empty (which also selects it in its proto oneof); a scalar or enum final field is not touched. -/
+def touchProp (props : List PropDef) (p : PropDef) (m : Fields) : Fields :=
+  let rec go (pfx : List Nat) : List Nat → Fields → Fields
+    | [], m => m
+    | [k], m =>
+      match p.field with
+      | .object _ | .oneof _ =>
+        setLeaf p.pres k (.msg (PVal.asMsg (aget k m))) (clearGroup props pfx p.group k m)
+      | .any pb =>
+        match aget k m with
+        | some _ => m
+        | none =>
+          setLeaf p.pres k (if pb then .anyPb [] [] .none "" (.msg []) else .anyJ5 [] [] [] .none "" (.msg []))
+            (clearGroup props pfx p.group k m)
+      | _ => m
+    | k :: rest, m => aset k (.msg (go (pfx ++ [k]) rest (PVal.asMsg (aget k m)))) m
+  go [] p.path m
+
+/-- the oneof post-checks of `decodeOneofInner` (after the member loop); `some p` = the arm that
+`"!type"` alone selected (`oneof.NewValue`) -/
+def oneofPost (ops : List PropDef) (found : List Bytes) (ct : Option Bytes) :
+    Outcome (Option PropDef) :=
   match found with
   | [] =>
     match ct with
-    | none => .ok ()
+    | none => .ok none
     | some name =>
       match findProp ops name with
       | none => .err "no such key"
-      | some _ => .panic "index out of range [0] with length 0 (foundKeys[0])"
+      | some p =>
+        match p.path, p.field with
+        | [], .oneof _ => .ok none
+        | [], _ => .err "no such key"
+        | _, _ => .ok (some p)
   | [k] =>
     match ct with
-    | some name => if k = name then .ok () else .err "key does not match type"
-    | none => .ok ()
+    | some name => if k = name then .ok none else .err "key does not match type"
+    | none => .ok none
   | _ => .err "multiple keys found in oneof"
+
+/-- apply the outcome of `oneofPost` to the oneof's message -/
+def applyPost (ops : List PropDef) (t : Option PropDef) (m : Fields) : Fields :=
+  match t with
+  | some p => touchProp ops p m
+  | none => m
 
 /-- accumulator of `decodeAny`'s member loop -/
 structure AnyAcc where
@@ -102,7 +132,7 @@ def finishOneof (ops : List PropDef)
   | .ok (r, found, ct, term) =>
     if term == .errIn then .err "token" else
     match oneofPost ops found ct with
-    | .ok () => if closeOk term then .ok r.m else .err "token"
+    | .ok tp => if closeOk term then .ok (applyPost ops tp r.m) else .err "token"
     | .err e => .err e
     | .panic w => .panic w
   | .err e => .err e
@@ -145,7 +175,7 @@ def decProp (c : Cfg) (props : List PropDef) (p : PropDef) (t : PTree) (st : PS)
         if p.path.isEmpty then .err "Reflection Bug: no proto field and not a oneof" else
         match t, c.env.find ref with
         | .str s _, some (.enum pfx opts) =>
-          match optionByName pfx opts s with
+          match enumOptionByName pfx opts s with
           | some n => .ok { st1 with m := updPath props p (some (.enum n)) st1.m }
           | none => .err "enum value not found"
         | _, _ => .err "unexpected token, expected string"
@@ -186,10 +216,11 @@ def decProp (c : Cfg) (props : List PropDef) (p : PropDef) (t : PTree) (st : PS)
           | .ok (r, found, ct, term) =>
             if term == .errIn then .err "token" else
             match oneofPost ops found ct with
-            | .ok () =>
+            | .ok tp =>
               if closeOk term then
-                .ok { st1 with m := if p.path.isEmpty then r.m
-                                    else updPath props p (some (.msg r.m)) st1.m }
+                let rm := applyPost ops tp r.m
+                .ok { st1 with m := if p.path.isEmpty then rm
+                                    else updPath props p (some (.msg rm)) st1.m }
               else .err "token"
             | .err e => .err e
             | .panic w => .panic w
@@ -336,6 +367,7 @@ def decAnyMembers (c : Cfg) (ftype : Option Bytes) (ms : PMembers) (acc : AnyAcc
       match v with
       | .str s _ => decAnyMembers c ftype rest { acc with ct := some s }
       | _ => .err "unexpected token, expected string"
+    else if k ≠ ascii "value" then .err "no such field"
     else if acc.valueBytes.isSome then .err "multiple keys found in Any"
     else
       match popValueAsBytes v with
@@ -367,13 +399,13 @@ def decElems (c : Cfg) (item : Field) (xs : PElems) (acc : List PVal) :
       | some tok =>
         match decodeScalar c.O k tok with
         | .ok (some pv) => decElems c item rest (acc ++ [pv])
-        | .ok none => .panic "protoreflect.List.Append: invalid value"
+        | .ok none => .err "cannot append a nil value"
         | .err e => .err e
         | .panic w => .panic w
     | .enum ref =>
       match v, c.env.find ref with
       | .str s _, some (.enum pfx opts) =>
-        match optionByName pfx opts s with
+        match enumOptionByName pfx opts s with
         | some n => decElems c item rest (acc ++ [.enum n])
         | none => .err "enum value not found"
       | _, _ => .err "cannot set enum value"
@@ -407,15 +439,19 @@ def decMapMembers (c : Cfg) (item : Field) (ms : PMembers) (acc : List (Bytes ×
       | none => .err "unexpected token, expected scalar"
       | some tok =>
         match decodeScalar c.O sk tok with
-        | .ok (some pv) => decMapMembers c item rest (mset k pv acc)
-        | .ok none => .panic "protoreflect.Map.Set: invalid value"
+        | .ok (some pv) =>
+          if (mget k acc).isSome then .err "key already exists in map"
+          else decMapMembers c item rest (mset k pv acc)
+        | .ok none => .err "cannot set a nil value"
         | .err e => .err e
         | .panic w => .panic w
     | .enum ref =>
       match v, c.env.find ref with
       | .str s _, some (.enum pfx opts) =>
-        match optionByName pfx opts s with
-        | some n => decMapMembers c item rest (mset k (.enum n) acc)
+        match enumOptionByName pfx opts s with
+        | some n =>
+          if (mget k acc).isSome then .err "key already exists in map"
+          else decMapMembers c item rest (mset k (.enum n) acc)
         | none => .err "enum value not found"
       | _, _ => .err "unexpected token, expected string"
     | .object ref =>
